@@ -340,6 +340,91 @@ def run_case(args):
 XML_LIB_ERRORS = LIB_ERRORS + ("ProvXMLException",)
 
 
+def xml_document_correspondence(tier, seed):
+    """the model of the PROV-XML reader above record level (XmlReadDoc.xml_read_document: a fresh document, prov:other
+    skipped, bundleContent -> document.bundle(identifier read in the element's scope) and its children, record elements)
+    against ProvDocument.deserialize on whole texts — foreign ones from the specification-driven generator and texts the
+    library wrote for generated documents (force_types off and on): the document built (records, bundles under their
+    URIs, both managers with every table) or the class of the error."""
+    import random
+    import warnings
+    import logging
+    from lxml import etree
+    import prov.model as M
+    from harness import common, xmltree, xmlgen, progs
+    from harness.sexp import dumps, loads
+    from harness.props import c13
+    logging.disable(logging.CRITICAL)
+    warnings.simplefilter("ignore")
+    rng = random.Random(seed * 7919 + 3)
+    texts = []
+    for _ in range(120 if tier == "quick" else 1500):
+        texts.append(xmlgen.gen_xml(rng))
+    programs = progs.scoping_programs(()) + c13.fixed_programs() + progs.subtype_programs(())
+    for ops in programs[::(2 if tier == "quick" else 1)]:
+        im = I.Impl()
+        try:
+            for op in ops:
+                im.step(op)
+        except Exception:
+            continue
+        for d in im.docs:
+            for ft in (False, True):
+                try:
+                    texts.append(d.serialize(format="xml", force_types=ft))
+                except Exception:
+                    pass
+    reqs, exp = [], []
+    skipped = Counter()
+    for text in texts:
+        try:
+            root = etree.fromstring(text.encode("utf-8"))
+        except Exception:
+            skipped["not well-formed"] += 1
+            continue
+        # the prefix lxml reports for the children of record elements: the model takes it as a function of the namespace
+        pm = {}
+        ok = True
+        for el in root.iter():
+            if not isinstance(el.tag, str) or el is root:
+                continue
+            par = el.getparent()
+            if par is root or (isinstance(par.tag, str) and etree.QName(par).localname == "bundleContent" and par.getparent() is root):
+                continue                                   # a record element or a bundleContent itself
+            ns = etree.QName(el).namespace or ""
+            if pm.setdefault(ns, el.prefix) != el.prefix:
+                ok = False
+        if not ok:
+            skipped["one namespace under two prefixes"] += 1
+            continue
+        try:
+            with warnings.catch_warnings():
+                warnings.simplefilter("ignore")
+                d2 = M.ProvDocument.deserialize(content=text, format="xml")
+            got = ["ok", I.dump_doc(d2)]
+        except Exception as e:
+            got = ["raise", I.exc_class(e)]
+        t = xmltree.tree_of(text)
+        pmap = [[ns, ["some", p] if p else "none"] for ns, p in sorted(pm.items())]
+        ftab = I.float_table([["str", x] for x in sorted(xmltree.leaf_texts(t, set()))])
+        reqs.append(dumps(["xmlreaddoc", ftab, pmap, t]))
+        exp.append((text[:900], got))
+    outs = common.run_model_batch(reqs)
+    bad = []
+    n = 0
+    for (text, got), o in zip(exp, outs):
+        m = loads(o)
+        if m == "out-of-domain":
+            skipped["outside the model"] += 1
+            continue
+        n += 1
+        if I.canon(m) != I.canon(got):
+            a, b = dumps(I.canon(got)), dumps(I.canon(m))
+            k = next((i for i in range(min(len(a), len(b))) if a[i] != b[i]), min(len(a), len(b)))
+            bad.append({"text": text, "implementation": a[max(0, k - 200):k + 300], "model": b[max(0, k - 200):k + 300]})
+    return n, dict(skipped), bad
+
+
 def run_xml_case(args):
     """the PROV-XML half: a foreign text is loaded; stability in the same format and across formats; agreement with
     the specification reader"""
@@ -512,6 +597,17 @@ def run(tier, seed, log, model_runs=True, enlarged=False):
             if d:
                 disagreements.append({"program": ops, "first_difference": d[1][:1500], "tree": tree,
                                       "theorem": "correspondence Json.decode_doc ~ provjson.decode_json_document"})
+    nxd, xskip = 0, {}
+    if model_runs:
+        try:
+            nxd, xskip, xbad = xml_document_correspondence(tier, seed)
+        except Exception:
+            nxd, xskip, xbad = 0, {}, []
+            violations.append({"kind": "harness-error", "what": "harness error", "detail": traceback.format_exc()[-1500:]})
+        log("PROV-XML documents read by the model: %d texts (%s), %d disagreements" % (nxd, xskip, len(xbad)))
+        for b in xbad[:2]:
+            disagreements.append({"first_difference": json.dumps(b)[:2000],
+                                  "theorem": "correspondence XmlReadDoc.xml_read_document ~ ProvXMLSerializer.deserialize / deserialize_subtree"})
     uniq = {}
     for v in violations:
         uniq.setdefault(v.get("failure", {}).get("what", v.get("what")), v)
@@ -533,10 +629,14 @@ def run(tier, seed, log, model_runs=True, enlarged=False):
                 "generator of foreign dialects (any prefix or the default namespace for prov, declarations on inner elements, subtype "
                 "elements, xsi:type on record elements, every literal spelling, prov:other, comments, hadMember with several "
                 "entities, bundles re-binding prefixes) + the XML files shipped with the tests; each text: load, XML re-write/"
-                "re-load (force_types off/on), XML -> d -> JSON -> d', agreement with the specification reader XmlSpec.read. "
+                "re-load (force_types off/on), XML -> d -> JSON -> d', agreement with the specification reader XmlSpec.read; whole texts "
+                "(foreign and library-written) are also read by the extracted model of the library's reader above record level "
+                "(XmlReadDoc.xml_read_document) and the document built — records, bundles under their URIs, every table of both "
+                "managers — or the error class is compared with ProvDocument.deserialize. "
                 "non-trivial = at least one record; distinct = distinct tree/text",
         "samples": [cases[ncorp][1] if len(cases) > ncorp else None, cases[-1][0]],
-        "traces_validated_against_impl": len(good) - ood if model_runs else 0,
+        "traces_validated_against_impl": (len(good) - ood if model_runs else 0) + nxd,
+        "xml_documents_read_by_model": nxd, "xml_documents_skipped": xskip,
         "disagreements_checked": len(disagreements),
         "exhaustive": False,
         "distribution": {"status": dict(stat), "case_kinds": dict(kinds), "out_of_domain": ood,
